@@ -701,7 +701,9 @@ class CompiledType(compiler.CompiledType):
         if indent is not None:
             indent_xml(element, indent * " ")
 
-        return ElementTree.tostring(element)
+        # ElementTree writes a carriage return in character data as is,
+        # and an XML parser turns it into a line feed.
+        return ElementTree.tostring(element).replace(b'\r', b'&#13;')
 
     def decode(self, data):
         element = ElementTree.fromstring(data.decode('utf-8'))
